@@ -20,6 +20,7 @@ License: 3-clause BSD. (See the COPYRIGHT file)
 from __future__ import annotations
 
 import json
+import math
 from struct import error as struct_error, unpack
 from typing import TYPE_CHECKING, Any, Callable, ClassVar, Protocol
 
@@ -290,6 +291,9 @@ def jsonable(content: Any) -> Any:
         return {str(jsonable(key)): jsonable(value) for key, value in content.items()}
     if isinstance(content, (list, tuple)):
         return [jsonable(item) for item in content]
+    if isinstance(content, float) and not math.isfinite(content):
+        # json.dumps writes NaN and Infinity, which are not JSON: the line would not parse
+        return str(content)
     if isinstance(content, (str, int, float, bool)) or content is None:
         return content
     return str(content)
